@@ -678,7 +678,11 @@ func runExC(cEx *vt.C, s ExScript) (bool, string, *vt.Finding) {
 				}
 			}
 			if !inClean {
-				return true, key, vt.Failf("leak/"+sigFor(p, o.label, si), "%s of the struct decoded from an expanded configuration shows the secret %q of slot %d: %s", p, s.Texts[i], i, excerpt(o.text))
+				f := vt.Failf("leak/"+sigFor(p, o.label, si), "%s of the struct decoded from an expanded configuration shows the secret %q of slot %d: %s", p, s.Texts[i], i, excerpt(o.text))
+				if cEx.Soft(f, s) { // e.g. the listed confmap/array-not-encoded
+					continue
+				}
+				return true, key, f
 			}
 		}
 	}
